@@ -101,6 +101,36 @@ def run(ctx):
                        "re-issuing buffered requests must not hold _ls_lock (gn_ls_request takes it)", f"{fi.module.rel}:{n_.lineno}")
     if not flushed:
         raise AnalysisError("C15: LS reply handler no longer flushes buffered requests")
+    # check-then-act inside a critical section decides on values READ inside that section: a condition that depends on a
+    # local bound BEFORE the lock was taken from shared state (location table, LS / CBF bookkeeping) acts on a stale snapshot
+    SHARED = ("self.location_table", "self._ls_", "self._cbf_", "self.sequence_number")
+    n_sec = 0
+    for fi in P.cls(R).methods.values():
+        fl = la.flow(fi)
+        for w in [n for n in ast.walk(fi.node) if isinstance(n, ast.With) and id(n) in fl.before]:
+            lk = [fl._lock_key_through_locals(it.context_expr, fl.before[id(w)]) for it in w.items]
+            if not any(k in ("Router._ls_lock", "Router._cbf_lock", "Router.sequence_number_lock") for k in lk if k):
+                continue
+            n_sec += 1
+            stale = []
+            for test in [x.test for x in ast.walk(w) if isinstance(x, (ast.If, ast.While, ast.IfExp))]:
+                for nm in [x for x in ast.walk(test) if isinstance(x, ast.Name) and isinstance(x.ctx, ast.Load)]:
+                    try:
+                        st = fl.state_at(nm)
+                    except AnalysisError:
+                        continue
+                    for d in fl.reaching(nm.id, st):
+                        if d.kind == "param" or d.value is None or d.stmt is None:
+                            continue
+                        inside = any(x is d.stmt for x in ast.walk(w))
+                        src = unparse(d.value)
+                        if not inside and any(s_ in src for s_ in SHARED):
+                            stale.append((nm.id, d.stmt.lineno, src[:60]))
+            ctx.ob("C15.atomic", fi.short(), f"section@{_ord_with(fi, w)}:decides-on-fresh-reads", not stale,
+                   "the critical section tests only values read inside it" if not stale else
+                   f"the critical section decides on `{stale[0][0]}`, bound at line {stale[0][1]} from `{stale[0][2]}` BEFORE the lock was taken: "
+                   "another thread can change that state in between (check-then-act on a stale snapshot)", f"{fi.module.rel}:{w.lineno}")
+    ctx.extra["critical_sections_examined"] = n_sec
     ctx.floor("C15.atomic", 12)
     # ---- lock order
     LR.check_order(ctx, la, {"Router", "LocationTable", "LocationTableEntry"}, "C15.order", wiring)
@@ -146,3 +176,8 @@ def run(ctx):
 def _ord(P, m, c) -> int:
     same = [x for x in P.calls_in(m) if unparse(x.func) == unparse(c.func)]
     return same.index(c)
+
+
+def _ord_with(fi, w) -> int:
+    ws = [n for n in ast.walk(fi.node) if isinstance(n, ast.With)]
+    return ws.index(w)
